@@ -134,7 +134,7 @@ def run(ctx):
         # dictionary built by literal + conditional item stores
         base = upd[0].data['args'][1]
         hdr = {}
-        for k in ('tsamp', 'tstart', 'nchans', 'fch1', 'foff'):
+        for k in ('tsamp', 'tstart', 'nchans', 'fch1', 'foff', 'source_name'):
             hdr[k] = T.mk_sub(base, lift(k))
     for k, spec in (('tsamp', 'self.dt'), ('nchans', 'self.fchans'), ('fch1', 'self.fch1 * 1e-6'),
                     ('foff', 'ITE(self.ascending, 1, -1) * self.df * 1e-6'), ('tstart', 'Time(self.t_start, format="unix").mjd')):
@@ -188,10 +188,17 @@ def run(ctx):
     sn = selfattr(r2, 'source_name')
     ctx.formula('AGREE', 'source name is read from the header', init, sn if sn is not None else NONE,
                 T.mk_sub(T.mk_attr(sym('WF'), 'header'), lift('source_name')), node=init.node, construct='self.source_name [waterfall route]')
-    snw = [e for e in I.events if e.kind == 'store' and e.data.get('target') == 'sub' and e.data['key'].key == lift('source_name').key]
-    ctx.ob('AGREE', 'a synthetic frame writes its source name into the new header', uw,
-           bool(snw) and snw[0].data['value'].key == ctx.spec(uw, 'self.source_name').key, {'stores': [e.text() for e in snw]},
-           node=(snw[0].node if snw else uw.node), construct="header['source_name']")
+    # the saved source name is the FRAME's (like every other field it is refreshed on every update, also when the Waterfall
+    # was inherited from a file or a parent frame and the frame has its own name)
+    snw = [e for e in I.events if e.kind == 'store' and e.data.get('target') == 'sub' and e.data['key'].key == lift('source_name').key
+           and not e.pc]
+    want_sn = ctx.spec(uw, 'self.source_name')
+    in_update = hdr.get('source_name') is not None and all(not e.pc for e in upd)
+    ok_sn = (bool(snw) and snw[-1].data['value'].key == want_sn.key) or (in_update and hdr['source_name'].key == want_sn.key)
+    ctx.ob('AGREE', 'every save / get_waterfall writes the frame\'s own source name into the header (not only for a frame without a '
+           'Waterfall)', uw, ok_sn,
+           {'unconditional_stores': [e.text() for e in snw], 'in_header_update': pretty(hdr['source_name']) if hdr.get('source_name') is not None else None},
+           node=(snw[0].node if snw else upd[0].node), construct="header['source_name'] [every update]")
 
     # ---- D4 helper axes
     ctx.clause = 'D4'
